@@ -507,7 +507,12 @@ Definition weak_encs : list Z := [cE_Tight; cE_TRLE; cE_ZRLE; cE_ZYWRLE; cE_Ultr
 Lemma sound_rect_body x y w h enc : 0 <= w -> 0 <= h -> sound (rect_body x y w h enc).
 Proof.
   intros Hw Hh. unfold rect_body.
-  snd; try (apply sound_upd; intros; now apply keeps_canfur).
+  snd; try (apply sound_upd; intros; now apply keeps_canfur);
+    try (apply sound_upd; intros; now apply keeps_reqrs);
+    try (apply sound_upd; intros s0 Hs0;
+         apply (keeps_fold_screen (fun r => negb (be_val (firstn 4 r) =? 0) && negb (be_val (firstn 2 (skipn 8 r)) =? 0)
+                                            && negb (be_val (firstn 2 (skipn 10 r)) =? 0))
+                                  (fun r => (be_val (firstn 2 (skipn 8 r)), be_val (firstn 2 (skipn 10 r))))); exact Hs0).
 Qed.
 
 Theorem rect_body_safe x y w h enc :
